@@ -333,7 +333,7 @@ def _case_vhdx_bitmap(case, ctx, d, cache):
 
 
 def _shard_vhdx_locate(shard, ctx):
-    for cfg in ("relative", "relative-backslash-subdir", "absolute-win32", "missing", "nameless-handle", "str-path",
+    for cfg in ("relative", "relative-backslash-subdir", "absolute-win32", "missing", "both-exist", "nameless-handle", "str-path",
                 "handle-with-name"):
         run_case({"kind": "vhdx-locate", "cfg": cfg}, ctx)
 
@@ -358,12 +358,19 @@ def _case_vhdx_locate(case, ctx, d):
         "absolute-win32": ("other/base.vhdx", [("relative_path", ".\\nothere\\base.vhdx"),
                                                 ("absolute_win32_path", os.path.join(d, "other", "base.vhdx").replace("/", "\\"))]),
         "missing": (None, [("relative_path", ".\\base.vhdx"), ("absolute_win32_path", "C:\\gone\\base.vhdx")]),
+        # both locations exist and hold different disks (a copied VM folder next to the originally registered parent): the
+        # relative path is evaluated first
+        "both-exist": ("vm/base.vhdx", [("relative_path", ".\\base.vhdx"),
+                                        ("absolute_win32_path", os.path.join(d, "elsewhere", "base.vhdx").replace("/", "\\"))]),
         "nameless-handle": ("vm/base.vhdx", [("relative_path", ".\\base.vhdx"), ("absolute_win32_path", "C:\\gone\\base.vhdx")]),
         "str-path": ("vm/base.vhdx", [("relative_path", ".\\base.vhdx"), ("absolute_win32_path", "C:\\gone\\base.vhdx")]),
         "handle-with-name": ("vm/base.vhdx", [("relative_path", ".\\base.vhdx"), ("absolute_win32_path", "C:\\gone\\base.vhdx")]),
     }[cfg]
     if loc[0]:
         base.write_to(os.path.join(d, loc[0]))
+    if cfg == "both-exist":
+        os.makedirs(os.path.join(d, "elsewhere"), exist_ok=True)
+        B.build([DATA, DATA], [1, 0], layer=5, disk_id=b"\x01" * 16).write_to(os.path.join(d, "elsewhere", "base.vhdx"))
     top = B.build([0, DATA], [None, 0], layer=2, parent=[("parent_linkage", "{0}")] + loc[1], disk_id=b"\x02" * 16)
     top_path = os.path.join(child_dir, "top.avhdx")
     top.write_to(top_path)
